@@ -219,7 +219,7 @@ Definition allq (g : env) : Prop :=
                     | _ => False
                     end) g.
 
-Lemma egeneralize_allq dts g : allq g -> egeneralize dts g = Ok g.
+Lemma egeneralize_allq lead dts g : allq g -> egeneralize lead dts g = Ok g.
 Proof.
   intro H. unfold egeneralize. induction H as [|[x e] r Hx Hr IH]; simpl; auto.
   simpl in Hx. destruct e as [[t|n t bs]|[ps rt|n ps rt bs]]; try contradiction; simpl; rewrite IH; reflexivity.
@@ -233,10 +233,10 @@ Lemma mapM_cons {A B} (f : A -> res B) a l :
   mapM f (a :: l) = (do y <- f a; do ys <- mapM f l; Ok (y :: ys)).
 Proof. reflexivity. Qed.
 
-Lemma egeneralize_cons_ground x d g : ground d = true -> allq g ->
-  egeneralize [] ((x, IdNormal (Concrete (TDim d))) :: g) = Ok ((x, IdNormal (Quantified 0 (TDim d) [])) :: g).
+Lemma egeneralize_cons_ground lead x d g : ground d = true -> allq g ->
+  egeneralize lead [] ((x, IdNormal (Concrete (TDim d))) :: g) = Ok ((x, IdNormal (Quantified 0 (TDim d) [])) :: g).
 Proof.
-  intros Gd Hq. pose proof (egeneralize_allq [] g Hq) as E. unfold egeneralize in *.
+  intros Gd Hq. pose proof (egeneralize_allq lead [] g Hq) as E. unfold egeneralize in *.
   rewrite mapM_cons, E. cbn [snd fst]. rewrite (generalize_ground _ Gd). reflexivity.
 Qed.
 
@@ -257,9 +257,9 @@ Proof.
   simpl in E1, E2, E4. rewrite E4 in H. rewrite solve_nil in H. simpl in H.
   rewrite (mapM_id _ _ tapply_nil) in H. rewrite tapply_nil in H. simpl in H.
   rewrite eapply_nil in H. rewrite E2 in H. simpl in H.
-  assert (Eg : egeneralize [] ((x, IdNormal (Concrete (TDim d))) :: tc_env s1) =
+  assert (Eg : forall lead, egeneralize lead [] ((x, IdNormal (Concrete (TDim d))) :: tc_env s1) =
                Ok ((x, IdNormal (Quantified 0 (TDim d) [])) :: tc_env s0)).
-  { rewrite E1. apply egeneralize_cons_ground; auto. }
+  { intro lead. rewrite E1. apply egeneralize_cons_ground; auto. }
   rewrite Eg in H. simpl in H. rewrite (generalize_ground _ Gd) in H. simpl in H.
   inversion H; subst. exists d. repeat split; auto.
 Qed.
@@ -279,9 +279,9 @@ Proof.
   simpl in E1, E2, E4. rewrite E4 in H. rewrite solve_nil in H. simpl in H.
   rewrite (mapM_id _ _ tapply_nil) in H. rewrite tapply_nil in H. simpl in H.
   rewrite eapply_nil in H. rewrite E2 in H. simpl in H.
-  assert (Eg : egeneralize [] (("_", IdNormal (Concrete (TDim d))) :: ("ans", IdNormal (Concrete (TDim d))) :: tc_env s1) =
+  assert (Eg : forall lead, egeneralize lead [] (("_", IdNormal (Concrete (TDim d))) :: ("ans", IdNormal (Concrete (TDim d))) :: tc_env s1) =
                Ok (("_", IdNormal (Quantified 0 (TDim d) [])) :: ("ans", IdNormal (Quantified 0 (TDim d) [])) :: tc_env s0)).
-  { rewrite E1. pose proof (egeneralize_cons_ground "ans" d (tc_env s0) Gd Hq) as E.
+  { intro lead. rewrite E1. pose proof (egeneralize_cons_ground lead "ans" d (tc_env s0) Gd Hq) as E.
     Local Transparent egeneralize. unfold egeneralize in *. rewrite mapM_cons, E. cbn [snd fst].
     rewrite (generalize_ground _ Gd). reflexivity. }
   Local Opaque egeneralize.
